@@ -14,6 +14,7 @@ META = {
                "thorough": "schedules of <= 12 steps, <= 11 arrivals"},
     "outside": ["several event loops", "pre-emptive threads"],
     "stubs": ["event loop: engine/vloop.py"],
+    "granularity": "coarse schedules let the loop run to quiescence after every action; the latest-fine shards step the loop one iteration at a time (arrivals between two iterations)",
     "assumptions": ["callbacks made ready in one loop iteration run FIFO (asyncio semantics)"],
 }
 
@@ -65,6 +66,66 @@ def _body(shard, *choices):
         world.close()
 
 
+def body_fine(shard, *choices):
+    """Loop-iteration granularity: an arrival does not let the loop run; 'tick' runs exactly
+    one loop iteration.  The consumer either completes synchronously (instant) or is
+    manual.  This reaches interleavings such as: notify of B still queued, C arrives, the
+    consumer takes C and goes back to waiting, then the stale notify fires."""
+    with untraced():
+        return _fine(shard, *choices)
+
+
+def _fine(shard, *choices):
+    from engine.symutil import decide
+    from streamz import Stream
+    vd = Verdict()
+    world = World()
+    try:
+        source = Stream(asynchronous=True)
+        node = source.latest()
+        if shard["consumer"] == "instant":
+            world.instant_sink(node, "k")
+        else:
+            world.manual_sink(node, "k", native=shard.get("native", False))
+        world.loop.run_ready()
+        arrived = 0
+        for c in choices:
+            c = decide(c, (0, 2, 7, 8, 9))
+            if c is None or c == 9:
+                break
+            if c == 0:
+                if arrived >= shard["n"]:
+                    return ""
+                world.emit(source, arrived, run=False)
+                arrived += 1
+            elif c == 2:
+                p = world.pending()
+                if not p:
+                    return ""
+                p[0].fut.set_result(None)
+            elif c == 7:
+                if not world.loop.ready and world.loop.next_deadline() is None:
+                    return ""
+                world.loop.run_one_iteration()
+            else:
+                if not world.loop.ready:
+                    return ""
+                world.loop.run_ready()
+        drain(world, [], max_steps=40)
+        got = world.delivered["k"]
+        for i in range(1, len(got)):
+            if got[i] == got[i - 1]:
+                vd.add("duplicate-delivery@latest")
+            elif got[i] < got[i - 1]:
+                vd.add("reordered@latest")
+        if arrived > 0 and (not got or got[-1] != arrived - 1):
+            vd.add("newest-not-delivered@latest/arrival-while-busy")
+        vd.check(not world.loop.errors, "loop-error@latest")
+        return vd.result()
+    finally:
+        world.close()
+
+
 def obligations(tier):
     steps = 9 if tier == "quick" else 12
     n = 8 if tier == "quick" else 11
@@ -73,4 +134,9 @@ def obligations(tier):
         obls.append({"name": "latest/steps=%d/%s" % (steps, "native" if native else "future"),
                      "body": "body", "pre": "pre", "shard": {"n": n, "native": native},
                      "types": ["int"] * steps, "budget": 300 if tier == "quick" else 1800})
+    fsteps = 8 if tier == "quick" else 11
+    for consumer in ("instant", "manual"):
+        obls.append({"name": "latest-fine/%s/steps=%d" % (consumer, fsteps), "body": "body_fine", "pre": "pre",
+                     "shard": {"n": 5 if tier == "quick" else 7, "consumer": consumer},
+                     "types": ["int"] * fsteps, "budget": 600 if tier == "quick" else 3000})
     return obls
